@@ -30,6 +30,7 @@ PROP = "C05"
 ACTIONS = ("MoveGlobal", "MoveModule", "RenameModule", "ToPackage")
 INVARIANTS = ["ObsPreserved", "ExportsKept", "StillWellFormed", "MovedSeesItsNames"]
 MOVE_NAMES = {"f", "h", "k", "g"}
+NEUTRAL_TAGS = ("fromsub", "siblings")
 
 
 def scopes(tier):
@@ -40,6 +41,8 @@ def scopes(tier):
             forms = qforms or forms
             if qsize:
                 imports, uses, stmts = qsize
+        # features that only matter to import tidying (C07) are part of the plain fragment here
+        kw["features"] = tuple(kw.get("features", ())) + NEUTRAL_TAGS
         return pm.scope(actions, worlds, forms, imports, uses, stmts, DefNames=MOVE_NAMES, **kw)
 
     mg = ("MoveGlobal",)
@@ -49,7 +52,7 @@ def scopes(tier):
         ("move", sc("WorldsMove", "import,importas,from,fromas,star", 2, 1, 3, mg, qforms="import,from,star")),
         ("movepkg", sc("WorldsMovePkg", "import,importas,from,fromas,rel", 2, 1, 3, mg, qforms="import,from,rel",
                        qsize=one)),
-        ("reloc", sc("WorldsReloc", "import,importas,from,fromas,rel", 2, 1, 3, rl, qforms="import,importas,from,rel",
+        ("reloc", sc("WorldsReloc", "import,importas,from,fromas,rel", 2, 1, 3, rl, qforms="import,importas,from,fromas,rel",
                      qsize=one)),
         ("relocinit", sc("WorldsRelocInit", "import,importas,from,fromas", 2, 1, 3, rl, qforms="import,from")),
         ("reexport", sc("WorldsMove", "import,from,star", 2, 1, 3, mg, qforms="from,star", qsize=one,
@@ -57,6 +60,7 @@ def scopes(tier):
         ("rootref", sc("WorldsRelocInit", "import,from", 2, 1, 3, rl, qsize=one, features=("rootref",))),
         ("asmoved", sc("WorldsAsMoved", "from,fromas", 2, 1, 3, mg + rl, qforms="fromas", qsize=one,
                        features=("asmoved",))),
+        ("assub", sc("WorldsReloc", "from,fromas", 2, 1, 3, rl, qforms="fromas", qsize=one, features=("assub",))),
         ("relmoved", sc("WorldsRelIn", "rel,from", 2, 1, 3, mg + rl, qforms="rel", qsize=one,
                         features=("relmoved",))),
     ]
@@ -74,8 +78,13 @@ def act_key(act):
                          or ("->" + ".".join(act.get("new") or act.get("dest") or [])))
 
 
+def variant(act):
+    """a finer class of request for finding keys: a module moved to the project root"""
+    return "to-root" if act["name"] == "MoveModule" and not act["dest"] else ""
+
+
 def acts_of(prog, consts, rnd, tier="quick"):
-    return [dict(r["act"], layout=r["layout"], probe=r["probe"]) for r in
+    return [dict(r["act"], layout=r["layout"], probe=r["probe"], variant=variant(r["act"])) for r in
             sorted(prog["requests"], key=lambda r: act_key(r["act"]))]
 
 
@@ -144,7 +153,8 @@ def replay_program(item):
     exp_lines = {pm.apath(o["m"]): pm.spec_lines(o) for o in prog["obs"]}
     exp_err = {pm.apath(o["m"]): o["err"] for o in prog["obs"]}
     want_names = {a: sorted(v) for a, v in exp_names.items()}
-    legal = {act_key(r["act"]): dict(r["act"], layout=r["layout"], probe=r["probe"]) for r in prog["requests"]}
+    legal = {act_key(r["act"]): dict(r["act"], layout=r["layout"], probe=r["probe"], variant=variant(r["act"]))
+             for r in prog["requests"]}
     out = {"fails": [], "counts": {}, "machinery": None, "n_actions": 0, "scope": item["scope"],
            "pkey": pm.prog_key(prog), "akeys": [act_key(a) for a in item["acts"]], "sample": None}
     root = common.scratch("c05_")
@@ -239,7 +249,7 @@ def main(tier):
         ],
         rule="one request = (program enumerated by TLC, legal move/rename request of the spec); non-trivial "
              "program = rope changed the project for at least one request",
-        env_prefix="C05", small_all=lambda name: True)
+        env_prefix="C05", small_all=lambda name: True, neutral_tags=NEUTRAL_TAGS)
 
 
 if __name__ == "__main__":
